@@ -21,11 +21,9 @@ def d13(alt, v):
             xs = RG.norm(c[1][0]) + ['x'] * (3 - len(c[1][0]))
             if xs[0] == 0 and xs[1] == 'x': return True
     return False
-def has_empty_alt(r): return any(a[0] == 'set' and not a[1] for a in r)
 def npm_admits_doc(r, v):
-    """npm's documented answer, including the empty comparator set read as `*` (finding D14)"""
-    if RG.npm_admits([a for a in r if not (a[0] == 'set' and not a[1])], v): return True
-    return has_empty_alt(r) and not v[3]
+    """npm's documented answer (an empty alternative is `*`: the repaired defect D14)"""
+    return RG.npm_admits(r, v)
 
 # ------------------------------------------------------------------ C01
 def table_sweep(tier):
@@ -112,7 +110,6 @@ def eval_c01(triples, tier, rng, table):
         spec_struct = None if sp[0] == 'none' else dec_range(sp[0][1])
         spec = [b == 'true' for b in sp[1]]; known = [b == 'true' for b in sp[2]]
         po = parse(o)
-        empty_alt = has_empty_alt(r)
         if po == ['none']:
             dist['parse_failed'] += 1
             got = [False] * len(probes); impl_struct = None
@@ -127,7 +124,7 @@ def eval_c01(triples, tier, rng, table):
         for i, v in enumerate(probes):
             if max(v[:3]) > MAX: continue          # the property's domain: components in [0, MAX_SAFE_INTEGER]
             py = npm_admits_doc(r, v)
-            if not empty_alt and py != spec[i]:
+            if py != spec[i]:
                 dist['spec_vs_python_disagreements'] += 1
                 fails.append({'what': 'the Coq specification and the independent Python reading of npm disagree on `%s` / %s' % (text, vtext(v)), 'case': c, 'kind': 'machinery', 'no_input': True}); break
             want = py
@@ -137,7 +134,6 @@ def eval_c01(triples, tier, rng, table):
                 rule = None
                 if any(d12(a, v) for a in r): rule = 'lt_major_only'
                 elif any(d13(a, v) for a in r): rule = 'caret_zero_major'
-                elif empty_alt and not v[3]: rule = 'empty_alternative'
                 if rule: dist['known_class_pairs'] += 1
                 if rule in ('lt_major_only', 'caret_zero_major') and not known[i]:
                     fails.append({'what': 'known-class bookkeeping differs between Coq and Python on `%s` / %s' % (text, vtext(v)), 'case': c, 'kind': 'machinery', 'no_input': True})
